@@ -30,6 +30,8 @@ func main() {
 		runKver(r, n)
 	case "k4":
 		runK4(r, n, true)
+	case "k13big":
+		runK13big(r, n)
 	case "kmsz":
 		runKmsz(r, n)
 	case "k5":
@@ -50,6 +52,8 @@ func main() {
 		runK7scen(r, n)
 	case "kpool":
 		runKpool(r, n)
+	case "kmuxfid":
+		runKmuxfid(r, n)
 	case "kmux":
 		runKmux(r, n)
 	case "kcs":
